@@ -103,3 +103,7 @@ package dcs
 //@   assert_at return#* C15.set_outcome_unchanged [C15]: reached("Set", 1) && result == resultof("Set", 1, 1) && err == resultof("Set", 1, 1) && stat == resultof("Set", 1, 0)
 //@ func (*dcs.zkDCS).retryChildren$1
 //@   assert_at return#* C15.children_outcome_unchanged [C15]: reached("Children", 1) && result == resultof("Children", 1, 2) && err == resultof("Children", 1, 2) && children == resultof("Children", 1, 0)
+
+// ---- C20: structural invariant of the client (assumed at entry in the sweep) -----------------------------------------
+//@ define zkOK(z *zkDCS) = z.logger != nil && z.config != nil && z.conn != nil
+//@ typeinv *dcs.zkDCS zkOK init dcs.NewZookeeper
